@@ -3,39 +3,39 @@ import CalicoVerif.Model.C40
 namespace CalicoVerif.C40
 
 theorem runRules_nil (cs : Chains) (f : Nat) (p : Pkt) : runRules cs f [] p = .fall p := by
-  rw [runRules]
+  simp [runRules, runRulesWith]
 
 theorem runRules_cons_nomatch (cs : Chains) (f : Nat) (r : Rule) (rs : List Rule) (p : Pkt)
     (h : r.matches p = false) : runRules cs f (r :: rs) p = runRules cs f rs p := by
-  rw [runRules]; simp [h]
+  simp [runRules, runRulesWith, h]
 
 theorem runRules_cons_accept (cs : Chains) (f : Nat) (r : Rule) (rs : List Rule) (p : Pkt)
     (h : r.matches p = true) (ha : r.action = .accept) : runRules cs f (r :: rs) p = .accept := by
-  rw [runRules]; simp [h, ha]
+  simp [runRules, runRulesWith, h, ha]
 
 theorem runRules_cons_drop (cs : Chains) (f : Nat) (r : Rule) (rs : List Rule) (p : Pkt)
     (h : r.matches p = true) (ha : r.action = .drop) : runRules cs f (r :: rs) p = .drop := by
-  rw [runRules]; simp [h, ha]
+  simp [runRules, runRulesWith, h, ha]
 
 theorem runRules_cons_jump (cs : Chains) (f : Nat) (r : Rule) (rs : List Rule) (p : Pkt) (c : String)
     (h : r.matches p = true) (ha : r.action = .jump c) :
     runRules cs f (r :: rs) p = (match runChain cs f c p with | .fall p' => runRules cs f rs p' | v => v) := by
-  rw [runRules]; simp only [h, ha, if_true]
+  simp only [runRules, runRulesWith, h, ha, if_true]
   cases runChain cs f c p <;> rfl
 
 theorem runRules_cons_goto (cs : Chains) (f : Nat) (r : Rule) (rs : List Rule) (p : Pkt) (c : String)
     (h : r.matches p = true) (ha : r.action = .goto c) :
     runRules cs f (r :: rs) p = runChain cs f c p := by
-  rw [runRules]; simp [h, ha]
+  simp [runRules, runRulesWith, h, ha]
 
 theorem runRules_cons_clear (cs : Chains) (f : Nat) (r : Rule) (rs : List Rule) (p : Pkt) (m : Nat)
     (h : r.matches p = true) (ha : r.action = .clearMark m) :
     runRules cs f (r :: rs) p = runRules cs f rs { p with mark := clearBits p.mark m } := by
-  rw [runRules]; simp [h, ha]
+  simp [runRules, runRulesWith, h, ha]
 
 theorem runChain_succ (cs : Chains) (f : Nat) (c : String) (p : Pkt) (rs : List Rule) (h : cs c = some rs) :
     runChain cs (f + 1) c p = runRules cs f rs p := by
-  rw [runChain]; simp [h]
+  simp [runChain, runRules, h]
 
 /-- a prefix of non-matching rules is skipped. -/
 theorem runRules_skip (cs : Chains) (f : Nat) (pre rest : List Rule) (p : Pkt)
